@@ -15,7 +15,10 @@ Full statement (for the modelled logic):
   partitioning on which the code does not raise; and `mapOverlap_isSome_iff`: it raises
   (NotImplementedError) exactly when a partition is smaller than the overlap it has to lend.
 
-Not covered by theorems (validated at API level only): time-based windows (`before` a Timedelta),
+* `ffill_unlimited` — `Series.ffill()` without limit (`FillnaCheck` + `FFill(before=1)`): whenever the
+  code does not raise, the result is pandas' ffill of the concatenation.
+
+Not covered by theorems (validated at API level only): `bfill()` without limit (mirror image), time-based windows (`before` a Timedelta),
 pandas' rolling kernels themselves, the DataFrame (2-d) path of the cumulative ops — see
 `cum_df_refuted` / `cum_df_partial` for what the model says about one column of it.
 -/
@@ -413,6 +416,294 @@ theorem mapOverlap_isSome_iff (b a : Nat) (g : List α → α → List α → β
       have := (go_some_sideOK (winFn b a g) b a parts none out hm).1
       rw [hs] at this
       exact absurd this (by simp)
+
+/-! ### unlimited ffill (`FillnaCheck` + `FFill(before=1)`) -/
+
+/-- carried value after a block: the last valid cell, or the incoming carry -/
+def carryAfter : Cell → List Cell → Cell
+  | c, [] => c
+  | c, x :: rest => carryAfter (match x with | some v => some v | none => c) rest
+
+theorem ffillAll_length (c : Cell) (p : List Cell) : (ffillAll c p).length = p.length := by
+  induction p generalizing c with
+  | nil => simp [ffillAll]
+  | cons x xs ih => cases x <;> simp [ffillAll, ih]
+
+theorem ffillAll_append (c : Cell) (p q : List Cell) :
+    ffillAll c (p ++ q) = ffillAll c p ++ ffillAll (carryAfter c p) q := by
+  induction p generalizing c with
+  | nil => simp [ffillAll, carryAfter]
+  | cons x xs ih => cases x <;> simp [ffillAll, carryAfter, ih]
+
+/-- filling an already filled block again changes nothing when the inner carry was empty or the same -/
+theorem ffillAll_ffillAll_gen (p : List Cell) : ∀ (d c : Cell), (d = none ∨ d = c) →
+    ffillAll c (ffillAll d p) = ffillAll c p := by
+  induction p with
+  | nil => intro d c _; simp [ffillAll]
+  | cons x xs ih =>
+    intro d c h
+    cases x with
+    | some v =>
+      simp only [ffillAll]
+      rw [ih (some v) (some v) (Or.inr rfl)]
+    | none =>
+      rcases h with h | h
+      · subst h
+        simp only [ffillAll]
+        rw [ih none c (Or.inl rfl)]
+      · subst h
+        cases d with
+        | none => simp only [ffillAll]; rw [ih none none (Or.inl rfl)]
+        | some w => simp only [ffillAll]; rw [ih (some w) (some w) (Or.inr rfl)]
+
+theorem ffillAll_ffillAll (c : Cell) (p : List Cell) : ffillAll c (ffillAll none p) = ffillAll c p :=
+  ffillAll_ffillAll_gen p none c (Or.inl rfl)
+
+/-- last cell of a block (NaN for the empty block) -/
+def lastC (p : List Cell) : Cell := (p.getLast?).getD none
+
+theorem lastC_cons (a : Cell) (l : List Cell) (hl : l ≠ []) : lastC (a :: l) = lastC l := by
+  cases l with
+  | nil => exact absurd rfl hl
+  | cons b bs => simp [lastC, List.getLast?_cons_cons]
+
+theorem ffillAll_ne_nil (c : Cell) (p : List Cell) (hp : p ≠ []) : ffillAll c p ≠ [] := by
+  intro h
+  have := ffillAll_length c p
+  rw [h] at this
+  exact hp (List.length_eq_zero_iff.mp this.symm)
+
+/-- the last cell of a filled non-empty block is the carried value after it -/
+theorem lastC_ffillAll (c : Cell) (p : List Cell) (hp : p ≠ []) : lastC (ffillAll c p) = carryAfter c p := by
+  induction p generalizing c with
+  | nil => exact absurd rfl hp
+  | cons x xs ih =>
+    by_cases hxs : xs = []
+    · subst hxs
+      cases x <;> simp [ffillAll, lastC, carryAfter]
+    · cases x with
+      | some v =>
+        simp only [ffillAll, carryAfter]
+        rw [lastC_cons _ _ (ffillAll_ne_nil _ _ hxs)]
+        exact ih (some v) hxs
+      | none =>
+        simp only [ffillAll, carryAfter]
+        rw [lastC_cons _ _ (ffillAll_ne_nil _ _ hxs)]
+        exact ih c hxs
+
+theorem lastN_one (q : List Cell) (hq : q ≠ []) : lastN 1 q = [lastC q] := by
+  induction q with
+  | nil => exact absurd rfl hq
+  | cons a t ih =>
+    cases t with
+    | nil => simp [lastN, lastC]
+    | cons b t' =>
+      have := ih (by simp)
+      rw [lastC_cons a (b :: t') (by simp)]
+      rw [← this]
+      simp [lastN]
+
+/-- what stage 2 (`FFill` = MapOverlap(before=1)) computes partition by partition -/
+def fillChain : Option (List Cell) → List (List Cell) → List (List Cell)
+  | _, [] => []
+  | pp, p :: rest => ffillAll (match pp with | none => none | some q => lastC q) p :: fillChain (some p) rest
+
+theorem ffillAll_none_cons (x : Cell) (cur : List Cell) : ffillAll none (x :: cur) = x :: ffillAll x cur := by
+  cases x <;> simp [ffillAll]
+
+theorem go_ffill : ∀ (ps : List (List Cell)) (pp : Option (List Cell)) (out : List (List Cell)),
+    goOverlap (ffillAll none) 1 0 pp ps = some out →
+    out = fillChain pp ps ∧ (∀ q, pp = some q → ps ≠ [] → q ≠ []) ∧ (∀ p ∈ ps.dropLast, p ≠ []) := by
+  intro ps
+  induction ps with
+  | nil => intro pp out h; simp [goOverlap] at h; subst h; simp [fillChain]
+  | cons cur rest ih =>
+    intro pp out h
+    simp only [goOverlap] at h
+    cases hc : combinedParts 1 0 (prevOf 1 pp) cur (nextOf 0 rest) with
+    | none => simp [hc] at h
+    | some c =>
+      cases hr : goOverlap (ffillAll none) 1 0 (some cur) rest with
+      | none => simp [hc, hr] at h
+      | some r =>
+        simp only [hc, hr, Option.some.injEq] at h
+        obtain ⟨hrout, hcur, hrest⟩ := ih (some cur) r hr
+        have hnext : nextOf 0 rest = (none : Option (List Cell)) := by simp [nextOf]
+        have hprev : prevOf 1 pp = pp.map (lastN 1) := by simp [prevOf]
+        unfold combinedParts at hc
+        rw [hnext, hprev] at hc
+        have hs2 : sizeOK (none : Option (List Cell)) 0 = true := rfl
+        by_cases hsz : sizeOK (pp.map (lastN 1)) 1 = true
+        · rw [hsz, hs2] at hc
+          simp only [Bool.not_true, Bool.or_self, Bool.false_eq_true, if_false, Option.some.injEq,
+            Option.getD_none, List.append_nil] at hc
+          subst hc
+          have hq : ∀ q, pp = some q → q ≠ [] := by
+            intro q hqq hnil
+            subst hqq; subst hnil
+            simp [sizeOK, lastN] at hsz
+          refine ⟨?_, fun q hqq _ => hq q hqq, ?_⟩
+          · rw [← h, hrout]
+            simp only [fillChain]
+            congr 1
+            rw [overlapChunk_trim _ _ _ _ _ _ (by simp [ffillAll_length])]
+            cases pp with
+            | none => simp [lenOrNone]
+            | some q =>
+              have hqne := hq q rfl
+              simp only [Option.map_some, Option.getD_some, lastN_one q hqne, lenOrNone, List.length_singleton,
+                Nat.lt_irrefl, Nat.zero_lt_one, if_true, List.singleton_append, ffillAll_none_cons, Nat.sub_zero,
+                List.take_length, List.drop_succ_cons, List.drop_zero]
+          · intro p hp
+            cases rest with
+            | nil => simp at hp
+            | cons n more =>
+              simp only [List.dropLast_cons_cons, List.mem_cons] at hp
+              rcases hp with hp | hp
+              · subst hp; exact hcur p rfl (by simp)
+              · exact hrest p hp
+        · rw [hs2] at hc
+          simp [hsz] at hc
+
+def hasValid (p : List Cell) : Bool := p.any Option.isSome
+
+theorem carryAfter_of_valid (c : Cell) (p : List Cell) (h : hasValid p = true) : carryAfter c p = carryAfter none p := by
+  induction p generalizing c with
+  | nil => simp [hasValid] at h
+  | cons x xs ih =>
+    cases x with
+    | some v => simp [carryAfter]
+    | none =>
+      simp only [carryAfter]
+      exact ih c (by simpa [hasValid] using h)
+
+theorem ffillAll_all_none (p : List Cell) (h : hasValid p = false) : (ffillAll none p).all Option.isNone = true := by
+  induction p with
+  | nil => simp [ffillAll]
+  | cons x xs ih =>
+    cases x with
+    | some v => simp [hasValid] at h
+    | none =>
+      simp only [ffillAll, List.all_cons, Option.isNone_none, Bool.true_and]
+      exact ih (by simpa [hasValid] using h)
+
+theorem fillnaCheckAll_spec (fill : List Cell → List Cell) (skip : Nat) :
+    ∀ (parts : List (List Cell)) (i : Nat) (ps : List (List Cell)),
+      fillnaCheckAll fill skip i parts = some ps →
+      ps = parts.map fill ∧ ∀ (j : Nat) (p : List Cell), parts[j]? = some p → i + j ≠ skip → (fill p).all Option.isNone = false := by
+  intro parts
+  induction parts with
+  | nil => intro i ps h; simp [fillnaCheckAll] at h; subst h; simp
+  | cons p rest ih =>
+    intro i ps h
+    simp only [fillnaCheckAll] at h
+    cases hc : fillnaCheck fill (i != skip) p with
+    | none => simp [hc] at h
+    | some o =>
+      cases hr : fillnaCheckAll fill skip (i + 1) rest with
+      | none => simp [hc, hr] at h
+      | some os =>
+        simp only [hc, hr, Option.some.injEq] at h
+        obtain ⟨h1, h2⟩ := ih (i + 1) os hr
+        simp only [fillnaCheck] at hc
+        split at hc
+        · cases hc
+        · rename_i hcond
+          simp only [Option.some.injEq] at hc
+          refine ⟨by rw [← h, ← hc, h1]; rfl, ?_⟩
+          intro j q hq hne
+          cases j with
+          | zero =>
+            simp only [List.getElem?_cons_zero, Option.some.injEq] at hq
+            subst hq
+            simp only [Bool.and_eq_true, bne_iff_ne, ne_eq, not_and, Bool.not_eq_true] at hcond
+            exact hcond (by simpa using hne)
+          | succ j =>
+            simp only [List.getElem?_cons_succ] at hq
+            exact h2 j q hq (by omega)
+
+/-- the chain over locally filled partitions is the global fill -/
+theorem fillChain_global : ∀ (parts : List (List Cell)) (c : Cell) (pp : Option (List Cell)),
+    (match pp with | none => none | some q => lastC q) = c →
+    (∀ p ∈ parts.dropLast, p ≠ []) →
+    (∀ p ∈ parts.tail, hasValid p = true) →
+    (c = none ∨ ∀ p, parts.head? = some p → hasValid p = true) →
+    (fillChain pp (parts.map (ffillAll none))).flatten = ffillAll c parts.flatten := by
+  intro parts
+  induction parts with
+  | nil => intro c pp _ _ _ _; simp [fillChain, ffillAll]
+  | cons p rest ih =>
+    intro c pp hc hne htail hhead
+    simp only [List.map_cons, fillChain, List.flatten_cons, hc]
+    rw [ffillAll_ffillAll, ffillAll_append]
+    congr 1
+    cases rest with
+    | nil => simp [fillChain, ffillAll]
+    | cons n more =>
+      have hpne : p ≠ [] := hne p (by simp)
+      have hcarry : carryAfter c p = carryAfter none p := by
+        rcases hhead with h | h
+        · rw [h]
+        · exact carryAfter_of_valid c p (h p rfl)
+      apply ih (carryAfter c p) (some (ffillAll none p))
+      · simp only
+        rw [lastC_ffillAll none p hpne, hcarry]
+      · intro q hq
+        exact hne q (by simp only [List.dropLast_cons_cons, List.mem_cons]; exact Or.inr hq)
+      · intro q hq
+        exact htail q (by simp only [List.tail_cons] at hq ⊢; exact List.mem_of_mem_tail hq)
+      · right
+        intro q hq
+        simp only [List.head?_cons, Option.some.injEq] at hq
+        subst hq
+        exact htail _ (by simp)
+
+/-- **`Series.ffill()` without limit** (`FillnaCheck` + `FFill(before=1)`): whenever the code does
+    not raise, the result is pandas' ffill of the whole series. -/
+theorem ffill_unlimited (parts out : List (List Cell)) (h : daskFfillUnlimited parts = some out) :
+    out.flatten = ffillAll none parts.flatten ∧ out.map List.length = parts.map List.length := by
+  unfold daskFfillUnlimited at h
+  cases hchk : fillnaCheckAll (ffillAll none) 0 0 parts with
+  | none => simp [hchk] at h
+  | some ps =>
+    simp only [hchk] at h
+    obtain ⟨hps, hvalid⟩ := fillnaCheckAll_spec (ffillAll none) 0 parts 0 ps hchk
+    obtain ⟨hout, _, hne⟩ := go_ffill ps none out h
+    subst hps
+    have hne' : ∀ p ∈ parts.dropLast, p ≠ [] := by
+      intro p hp hnil
+      subst hnil
+      have : (ffillAll none ([] : List Cell)) ∈ (parts.map (ffillAll none)).dropLast := by
+        rw [← List.map_dropLast]
+        exact List.mem_map_of_mem hp
+      exact hne _ this (by simp [ffillAll])
+    have htail : ∀ p ∈ parts.tail, hasValid p = true := by
+      intro p hp
+      obtain ⟨j, hj⟩ := List.getElem?_of_mem hp
+      cases parts with
+      | nil => simp at hp
+      | cons a rest =>
+        simp only [List.tail_cons] at hj
+        have := hvalid (j + 1) p (by simpa using hj) (by omega)
+        cases hv : hasValid p with
+        | true => rfl
+        | false => rw [ffillAll_all_none p hv] at this; cases this
+    constructor
+    · rw [hout]
+      exact fillChain_global parts none none rfl hne' htail (Or.inl rfl)
+    · rw [hout]
+      have : ∀ (ps : List (List Cell)) (pp : Option (List Cell)), (fillChain pp ps).map List.length = ps.map List.length := by
+        intro ps
+        induction ps with
+        | nil => intro pp; simp [fillChain]
+        | cons p rest ih => intro pp; simp [fillChain, ffillAll_length, ih]
+      rw [this]
+      simp [List.map_map, Function.comp_def, ffillAll_length]
+
+
+example : daskFfillUnlimited [[none, some 1], [none, some 2, none], [none, some 5]]
+    = some [[none, some 1], [some 1, some 2, some 2], [some 2, some 5]] := by decide
+example : daskFfillUnlimited [[some 1], [none, none]] = none := by decide
 
 /-- non-vacuity: a partitioning that satisfies the side condition with a window crossing both
     boundaries, and one that does not -/
